@@ -220,6 +220,15 @@ def control_program(draw):
         for _ in range(draw(st.integers(1, 8))):
             k = draw(st.integers(0, 13))
             tgt = draw(st.sampled_from(targets))
+            if k <= 5:
+                # pausing / resuming a routine that may hang on a condition
+                # is an interplay no documentation defines (the model
+                # discards it): aim at the others when there are any
+                free = [t for t in targets if not any(
+                    op[0] in ('cwait', 'fwait')
+                    for op in routines[t]['body'])]
+                if free:
+                    tgt = draw(st.sampled_from(free))
             if k <= 2:
                 body.append(['pause', tgt])
             elif k <= 5:
@@ -227,8 +236,10 @@ def control_program(draw):
             elif k == 6:
                 body.append(['stop', tgt])
             elif k <= 8 and nclocks:
+                # (tempo <= 2: a quarter beat stays >= 1/8 s, away from
+                # the controllers' odd sixteenths)
                 body.append(['tempo', draw(st.integers(0, nclocks - 1)),
-                             draw(st.sampled_from([0.5, 1, 2, 4]))])
+                             draw(st.sampled_from([0.5, 1, 2, 2]))])
             elif k in (9, 12, 13) and nclocks and elapsed > 1.0625:
                 # the clock's beats jump (forward: sleepers left behind are
                 # performed at once, with a logical time up to 1 s in the
